@@ -1,6 +1,6 @@
-import XmlRsModel.Lemmas.RunsContent
-/-! Completeness of `document` for documents without XML declaration and DOCTYPE: prolog and epilogue of Misc items
-    around the root element. -/
+import XmlRsModel.Lemmas.RunsDecl
+/-! Completeness of `document` for documents without DOCTYPE: optional XML declaration, prolog and epilogue of Misc
+    items around the root element. -/
 namespace XmlRs.Lex
 open XmlRs Gen.Xml XmlRs.Names
 
@@ -9,8 +9,12 @@ def cstMisc : CMisc → CST
   | .pi t b => .node N.misc (cstPI t b)
   | .ws w => .node N.misc (.leaf w)
 
+def cstDeclOpt : Option CDecl → CST
+  | none => .seq []
+  | some x => cstDecl x
+
 def cstDoc (d : CDoc) : CST :=
-  .node N.document (.seq [.node N.prolog (.seq [.seq [], .many (d.before.map cstMisc), .seq []]),
+  .node N.document (.seq [.node N.prolog (.seq [cstDeclOpt d.decl, .many (d.before.map cstMisc), .seq []]),
                           cstItemNode d.root, .many (d.after.map cstMisc)])
 
 /-- what ends a run of Misc items: the end of the input, or a tag that is neither a comment nor a PI -/
@@ -142,12 +146,11 @@ abbrev xmlL : Str := ['x', 'm', 'l']
 /-- the XML declaration production fails on a document that starts with something else; a PI whose target merely
     begins with `xml` is read as far as `<?xml` and then misses the white space in front of `version` -/
 theorem xml_decl_fails (d : CDoc) (hb : d.before.all okMisc = true) (hroot : isElemItem d.root = true) (hok : okItem d.root = true) :
-    Runs env (.nt N.xml_decl) d.str .fail := by
+    Runs env (.nt N.xml_decl) (miscText d.before ++ (d.root.str ++ miscText d.after)) .fail := by
   have e0 : [Char.ofNat 60,Char.ofNat 63,Char.ofNat 120,Char.ofNat 109,Char.ofNat 108] = '<' :: '?' :: xmlL := rfl
   apply Runs.nt_fail_of env_xml_decl
   unfold Prod.xml_decl
   rw [e0]
-  simp only [CDoc.str]
   cases hbef : d.before with
   | nil =>
     obtain ⟨c, r, e, hc⟩ := elem_str_head hroot hok (miscText d.after)
@@ -228,24 +231,33 @@ theorem doctype_fails {X : Str} (h : MiscEnd X) : Runs env (.nt N.doctype_decl) 
   · simp [stripPrefix, Ne.symm h1]
 
 theorem CDoc.ok_parts {d : CDoc} (h : d.ok = true) :
-    d.decl = none ∧ d.before.all okMisc = true ∧ adjWs d.before = false ∧ isElemItem d.root = true ∧ okItem d.root = true ∧
+    (∀ x, d.decl = some x → okDecl x = true) ∧ d.before.all okMisc = true ∧ adjWs d.before = false ∧ isElemItem d.root = true ∧ okItem d.root = true ∧
     d.after.all okMisc = true ∧ adjWs d.after = false := by
-  simp only [CDoc.ok, Bool.and_eq_true, Bool.not_eq_true', Option.isNone_iff_eq_none] at h
+  simp only [CDoc.ok, Bool.and_eq_true, Bool.not_eq_true'] at h
   obtain ⟨⟨⟨⟨⟨⟨h1, h2⟩, h3⟩, h4⟩, h5⟩, h6⟩, h7⟩ := h
-  exact ⟨h1, h2, h3, h4, h5, h6, h7⟩
+  exact ⟨fun x hx => by rw [hx] at h1; exact h1, h2, h3, h4, h5, h6, h7⟩
 
-/-- COMPLETENESS of the generated grammar on renderings: the text of a concrete document (no XML declaration, no DOCTYPE)
+/-- COMPLETENESS of the generated grammar on renderings: the text of a concrete document (optional XML declaration, no DOCTYPE)
     is parsed completely, to the tree `cstDoc d` -/
 theorem runs_document (d : CDoc) (h : d.ok = true) : Runs env (.nt N.document) d.str (.ok (cstDoc d) []) := by
-  obtain ⟨_, h2, h3, h4, h5, h6, h7⟩ := CDoc.ok_parts h
+  obtain ⟨h1, h2, h3, h4, h5, h6, h7⟩ := CDoc.ok_parts h
   have hend := miscEnd_of_elem h4 h5 (miscText d.after)
   apply Runs.nt_of env_document
   unfold Prod.document
+  have hdecl : Runs env (.alt [.nt N.xml_decl, .seq []]) d.str
+      (.ok (cstDeclOpt d.decl) (miscText d.before ++ (d.root.str ++ miscText d.after))) := by
+    cases hd : d.decl with
+    | none =>
+      simp only [CDoc.str, hd, declText, List.nil_append, cstDeclOpt]
+      exact Runs.opt_none (xml_decl_fails d h2 h4 h5)
+    | some x =>
+      simp only [CDoc.str, hd, declText, cstDeclOpt]
+      exact Runs.opt_some (runs_xml_decl (h1 x hd) _)
   have hprolog : Runs env (.nt N.prolog) d.str
-      (.ok (.node N.prolog (.seq [.seq [], .many (d.before.map cstMisc), .seq []])) (d.root.str ++ miscText d.after)) := by
+      (.ok (.node N.prolog (.seq [cstDeclOpt d.decl, .many (d.before.map cstMisc), .seq []])) (d.root.str ++ miscText d.after)) := by
     apply Runs.nt_of env_prolog
     unfold Prod.prolog
-    refine Runs.seq (RunsSeq.cons (Runs.opt_none (xml_decl_fails d h2 h4 h5)) (RunsSeq.cons
+    refine Runs.seq (RunsSeq.cons hdecl (RunsSeq.cons
       (Runs.many (runs_misc_loop d.before h2 h3 _ hend)) (RunsSeq.cons ?_ (RunsSeq.nil _))))
     exact Runs.opt_none (Runs.seq_fail (RunsSeq.fail_head (doctype_fails hend)))
   have hroot : Runs env (.nt N.element) (d.root.str ++ miscText d.after) (.ok (cstItemNode d.root) (miscText d.after)) := by
